@@ -14,7 +14,7 @@ IMPORTS = "From Verif Require Import Values Filters.\nOpen Scope string_scope."
 KEYS = ['a', 'b', 'c', 'value', 'previous']
 # JSON encodings of values: ["undef"], ["none"], ["b",true], ["i",1], ["f","5/2"], ["s","x"], ["t",[1]]
 POOL = [["undef"], ["i", 0], ["s", ""], ["none"], ["b", False], ["t", []], ["i", 1], ["s", "x"],
-        ["b", True], ["f", "5/2"], ["t", [1]]]
+        ["b", True], ["f", "5/2"], ["t", [1]], ["m", []], ["m", [["k", 1]]]]
 MFUNS = ['succ', ['const', ["i", 7]], 'delete', 'reject', 'reject_falsy', 'delete_truthy']
 
 
